@@ -87,6 +87,15 @@ class Adapter(EnvAdapter):
 
     # ---- configurations -------------------------------------------------------------------
     def configs(self, tier):
+        # time-limit sweep ("for every value passed", C11): one stalling episode per value, no probes
+        from harness.envs.base import T_SWEEP_QUICK_FEW, T_SWEEP_THOROUGH_FEW
+
+        ts = T_SWEEP_QUICK_FEW if tier == "quick" else T_SWEEP_THOROUGH_FEW
+        return self._base_configs(tier) + [
+            dict(id=f"rw5a2_t{t}_sweep", ctor=dict(generator="random_walk", grid_size=5, num_agents=2, time_limit=t), episodes=1,
+                 max_steps=t + 2, policies=["stall"], probe_every=0, props=["C03", "C11"]) for t in ts]
+
+    def _base_configs(self, tier):
         # solve / greedy seek completion, stall survives to the time limit, collide seeks head-on collisions
         pol_rw = ["solve", "stall", "collide", "masked", "random", "mostly_masked"]
         pol_un = ["greedy", "stall", "collide", "masked", "random", "mostly_masked"]
